@@ -63,9 +63,11 @@ def one(name, tier):
                     detail = str(pl.get("detail") or pl.get("broken_obligations"))[:300]
                 except Exception:
                     pass
+                if meta.get("expect") == "quiet":
+                    kind = "FALSE-ALARM(" + kind + ")"
                 res["results"][pid] = {"outcome": kind, "detail": detail}
             elif rc == 0:
-                res["results"][pid] = {"outcome": "missed"}
+                res["results"][pid] = {"outcome": "quiet (as expected: harmless)" if meta.get("expect") == "quiet" else "missed"}
             else:
                 res["results"][pid] = {"outcome": "infra", "detail": out[-300:]}
     finally:
